@@ -251,3 +251,6 @@ impl<'s> FilterParser<'s> {
         self.settings.max_nesting_depth
     }
 }
+
+#[cfg(kani)]
+pub(crate) mod verif_kani;
